@@ -205,6 +205,7 @@ private:
     int _next_col_number;
     bool _lock_position;
     bool _ignore_manifest;
+    bool _eof_newline;
     int _prev_last_c;
 
     InputFile *_parent = nullptr;
